@@ -144,6 +144,7 @@ func NewStd(o *kernel.Outcome, tape *kernel.Tape, opt StdOptions) (*World, error
 	w.Store.PresetSubject = tape.Sub("cfg-preset-subject").Bool(1, 2)
 	w.Store.TypedNil = tape.Sub("cfg-typed-nil").Bool(1, 2)
 	w.Store.WrapSentinels = tape.Sub("cfg-wrap-sentinels").Bool(1, 2)
+	w.Store.UnknownClientAs = tape.Sub("cfg-unknown-client").Pick("", "", "oauth", "oauth-wrapped")
 	if !opt.NoCustomClaims && cfg.Bool(1, 2) {
 		// deliberately colliding names: custom data must never replace registered claims
 		w.Store.CustomClaims = map[string]any{"tenant": "t1", "iss": "https://evil.example", "sub": "mallory", "aud": []string{"evil"}, "exp": 1, "azp": "evil"}
